@@ -26,7 +26,8 @@ EXHAUSTIVE_PART = "every stream on 2 columns x 3 rows (quick) / 2 x 4 rows and 3
 ASSUMPTIONS = ["vmon/ref/grouping.py states the documented rules"]
 MONITORS = ["group", "group_raises", "count_steps", "count_mines", "count_holds_rolls"]
 REQUIRED = ["overlapping_holds", "interrupted_head", "orphan_tail", "unclosed_head", "same_beat_mixed_types",
-            "corpus_chart", "interrupted_head_while_younger_open", "type_subset"]
+            "corpus_chart", "interrupted_head_while_younger_open", "type_subset", "stream_given_as_notedata",
+            "full_row_with_minimum_equal_to_columns"]
 
 GRID_KINDS = "01234M"  # index 0..4 used: 0 empty, 1 tap, 2 hold head, 3 tail, 4 -> mine
 GRID_MAP = ["0", "1", "2", "3", "M"]
@@ -266,6 +267,35 @@ def run_stream(ctx, notes, include, minimum, case):
     if minimum:
         ctx.expect(C.count_hands(iter(real), same_beat_minimum=minimum) == R.count_steps(model, minimum=minimum),
                    "count_hands:minimum", minimum=minimum)
+    # the same questions with the stream given as a NoteData object (an Iterable[Note] like any other)
+    if real and len(real) <= 400 and all(n.keysound_index is None or n.note_type.value != "3" for n in real):
+        from simfile.notes import NoteData
+
+        columns = max(n.column for n in real) + 1
+        nd = NoteData.from_notes(iter(real), columns)
+        if list(nd) == real:
+            ctx.feat("stream_given_as_notedata")
+            rows = {}
+            for n in model:
+                if n[2] in R.DEFAULT_TYPES:
+                    rows[n[0]] = rows.get(n[0], 0) + 1
+            if any(v == columns for v in rows.values()):
+                ctx.feat("full_row_with_minimum_equal_to_columns")
+            for m in sorted({1, 2, 3, columns, minimum or 1}):
+                ctx.mon("count_steps")
+                for fn, kw, want in (
+                    (C.count_steps, {"same_beat_minimum": m}, R.count_steps(model, minimum=m)),
+                    (C.count_hands, {"same_beat_minimum": m}, R.count_steps(model, minimum=m)),
+                ):
+                    got = fn(nd, **kw)
+                    ctx.expect(got == want, f"{fn.__name__}:notedata-input", minimum=m, columns=columns, want=want, got=got)
+            ctx.expect(C.count_jumps(nd) == R.count_steps(model, minimum=2), "count_jumps:notedata-input", columns=columns)
+            ctx.expect(C.count_hands(nd) == R.count_steps(model, minimum=3), "count_hands:notedata-input-default", columns=columns)
+            try:
+                g1 = [[real_item(x) for x in g] for g in group_notes(nd, same_beat_notes=SB[R.ALL])]
+                ctx.expect(g1 == R.group(model, frozenset(G.NOTE_CHARS), R.ALL, False), "group:notedata-input")
+            except Exception as e:
+                ctx.violation("group:notedata-input-raised", {"exc": repr(e)})
     ctx.mon("count_mines")
     ctx.expect(C.count_mines(iter(real)) == R.count_mines(model), "count_mines",
                want=R.count_mines(model), got=C.count_mines(iter(real)))
